@@ -1,1 +1,758 @@
-fn main() {}
+//! C14 — aggregations equal a direct computation and do not depend on partitioning.
+//!
+//! A case = one generated corpus, indexed in four partitions (1 segment; k contiguous segments;
+//! k' shuffled segments; m separately searched indexes), and a few generated requests. Every
+//! (corpus, request, partition) triple is compared with a naive evaluator over the model documents.
+#[path = "c14_util/mod.rs"]
+mod c14_util;
+
+use std::collections::BTreeSet;
+use std::ops::Bound;
+
+use c14_util::cmp::*;
+use c14_util::model::*;
+use c14_util::oracle::*;
+use c14_util::req::*;
+use serde_json::{json, Value};
+use tantivy::aggregation::agg_req::Aggregations;
+use tantivy::aggregation::intermediate_agg_result::IntermediateAggregationResults;
+use tantivy::aggregation::{
+    AggContextParams, AggregationCollector, AggregationLimitsGuard, DistributedAggregationCollector,
+};
+use tantivy::query::{AllQuery, Query, RangeQuery, TermQuery};
+use tantivy::schema::IndexRecordOption;
+use tantivy::Term;
+use tvmon::report::*;
+use tvmon::rng::Rng;
+
+#[derive(Clone, Debug)]
+enum Q {
+    All,
+    Cat(String),
+    IRange(i64, i64),
+}
+
+fn q_matches(c: &Corpus, d: usize, q: &Q) -> bool {
+    match q {
+        Q::All => true,
+        Q::Cat(x) => filter_matches(c, d, &FilterQ::Cat(x.clone())),
+        Q::IRange(a, b) => filter_matches(c, d, &FilterQ::IRange(*a, *b)),
+    }
+}
+
+fn q_build(s: &Sch, q: &Q) -> Box<dyn Query> {
+    match q {
+        Q::All => Box::new(AllQuery),
+        Q::Cat(x) => Box::new(TermQuery::new(
+            Term::from_field_text(s.f[Fd::Cat.idx()], x),
+            IndexRecordOption::Basic,
+        )),
+        Q::IRange(a, b) => Box::new(RangeQuery::new(
+            Bound::Included(Term::from_field_i64(s.f[Fd::Fi.idx()], *a)),
+            Bound::Included(Term::from_field_i64(s.f[Fd::Fi.idx()], *b)),
+        )),
+    }
+}
+
+fn squash(e: &str) -> String {
+    let mut s: String = e
+        .chars()
+        .map(|c| if c.is_ascii_digit() { '#' } else { c })
+        .collect();
+    while s.contains("##") {
+        s = s.replace("##", "#");
+    }
+    s.chars().take(70).collect()
+}
+
+fn ctx_params(b: &Built, limits: AggregationLimitsGuard) -> AggContextParams {
+    AggContextParams::new(limits, b.index.tokenizers().clone())
+}
+
+/// Ok(json) | Err(("error"|"panic", message))
+fn run_single(
+    b: &Built,
+    q: &dyn Query,
+    req: &Aggregations,
+    limits: AggregationLimitsGuard,
+) -> Result<Value, (String, String)> {
+    let coll = AggregationCollector::from_aggs(req.clone(), ctx_params(b, limits));
+    match guarded(|| b.searcher.search(q, &coll)) {
+        Ok(Ok(res)) => serde_json::to_value(&res).map_err(|e| ("error".into(), format!("serialize: {e}"))),
+        Ok(Err(e)) => Err(("error".into(), e.to_string())),
+        Err(p) => Err(("panic".into(), format!("{} @ {}", p.message, p.location))),
+    }
+}
+
+fn run_distributed_piece(
+    b: &Built,
+    q: &dyn Query,
+    req: &Aggregations,
+) -> Result<IntermediateAggregationResults, (String, String)> {
+    let coll = DistributedAggregationCollector::from_aggs(req.clone(), ctx_params(b, Default::default()));
+    match guarded(|| b.searcher.search(q, &coll)) {
+        Ok(Ok(res)) => Ok(res),
+        Ok(Err(e)) => Err(("error".into(), e.to_string())),
+        Err(p) => Err(("panic".into(), format!("{} @ {}", p.message, p.location))),
+    }
+}
+
+fn postcard_rt(x: &IntermediateAggregationResults) -> Result<IntermediateAggregationResults, String> {
+    let bytes = postcard::to_allocvec(x).map_err(|e| format!("postcard serialize: {e}"))?;
+    postcard::from_bytes(&bytes).map_err(|e| format!("postcard deserialize: {e}"))
+}
+
+fn fold(pieces: Vec<IntermediateAggregationResults>) -> Result<IntermediateAggregationResults, String> {
+    let mut it = pieces.into_iter();
+    let mut acc = it.next().unwrap_or_default();
+    for p in it {
+        acc.merge_fruits(p).map_err(|e| format!("merge_fruits: {e}"))?;
+    }
+    Ok(acc)
+}
+
+fn fold_right(pieces: Vec<IntermediateAggregationResults>) -> Result<IntermediateAggregationResults, String> {
+    let mut it = pieces.into_iter().rev();
+    let mut acc = it.next().unwrap_or_default();
+    for mut p in it {
+        p.merge_fruits(acc).map_err(|e| format!("merge_fruits: {e}"))?;
+        acc = p;
+    }
+    Ok(acc)
+}
+
+fn tree(mut pieces: Vec<IntermediateAggregationResults>) -> Result<IntermediateAggregationResults, String> {
+    while pieces.len() > 1 {
+        let mut next = vec![];
+        let mut it = pieces.into_iter();
+        while let Some(mut a) = it.next() {
+            if let Some(b) = it.next() {
+                a.merge_fruits(b).map_err(|e| format!("merge_fruits: {e}"))?;
+            }
+            next.push(a);
+        }
+        pieces = next;
+    }
+    Ok(pieces.pop().unwrap_or_default())
+}
+
+/// number of buckets tantivy counts against the bucket limit
+fn count_buckets(aggs: &Aggs, got: &Value) -> u64 {
+    let mut n = 0;
+    for (name, a) in aggs {
+        let g = &got[name];
+        let Some(subs) = a.subs() else { continue };
+        if let Agg::Filter { .. } = a {
+            n += count_buckets(subs, g);
+            continue;
+        }
+        match &g["buckets"] {
+            Value::Array(bs) => {
+                for b in bs {
+                    n += 1 + count_buckets(subs, b);
+                }
+            }
+            Value::Object(m) => {
+                for b in m.values() {
+                    n += 1 + count_buckets(subs, b);
+                }
+            }
+            _ => {}
+        }
+    }
+    n
+}
+
+fn shape_with_fields(aggs: &Aggs) -> String {
+    fn one(a: &Agg) -> String {
+        let mut f = vec![];
+        // only the aggregation's own field(s)
+        match a {
+            Agg::Metric { field, .. }
+            | Agg::Pct { field, .. }
+            | Agg::Card { field, .. }
+            | Agg::Range { field, .. }
+            | Agg::Hist { field, .. }
+            | Agg::DateHist { field, .. }
+            | Agg::Terms { field, .. } => f.push(field.name()),
+            Agg::Composite { sources, .. } => f.extend(sources.iter().map(|s| s.field.name())),
+            _ => {}
+        }
+        let head = format!("{}:{}", a.kind(), f.join("+"));
+        match a.subs() {
+            Some(s) if !s.is_empty() => {
+                let mut v: Vec<String> = s.iter().map(|(_, a)| one(a)).collect();
+                v.sort();
+                format!("{head}({})", v.join(","))
+            }
+            _ => head,
+        }
+    }
+    let mut v: Vec<String> = aggs.iter().map(|(_, a)| one(a)).collect();
+    v.sort();
+    v.join(";")
+}
+
+#[derive(Clone, Copy, PartialEq, Eq, Debug)]
+enum Probe {
+    None,
+    /// range / histogram / composite over a multi-valued field
+    MvBucket,
+    /// top_hits with `from` beyond the number of hits
+    TopHitsFrom,
+    /// range with fractional bounds on an integer field
+    RangeFrac,
+}
+
+struct ReqCase {
+    aggs: Aggs,
+    probe: Probe,
+}
+
+fn gen_req_case(rng: &mut Rng, corpus: &Corpus) -> ReqCase {
+    let mut g = Gen {
+        rng,
+        corpus,
+        counter: 0,
+    };
+    let r = g.rng.weighted(&[72, 12, 8, 4, 4]);
+    match r {
+        0 => ReqCase {
+            aggs: g.gen_request(),
+            probe: Probe::None,
+        },
+        1 => ReqCase {
+            aggs: vec![g.gen_terms_approx()],
+            probe: Probe::None,
+        },
+        2 => {
+            // multi-valued field in a value-bucketing aggregation, optionally one metric below
+            let field = *g.rng.pick(&[Fd::Im, Fd::Fm]);
+            let subs = if g.rng.bool() {
+                vec![(
+                    "vcount_1".to_string(),
+                    Agg::Metric {
+                        kind: MK::Count,
+                        field: Fd::Id,
+                        missing: None,
+                        sigma: None,
+                    },
+                )]
+            } else {
+                vec![]
+            };
+            let a = match g.rng.below(3) {
+                0 => Agg::Hist {
+                    field,
+                    interval: *g.rng.pick(&[2.0, 5.0, 10.0]),
+                    offset: None,
+                    min_doc_count: Some(1),
+                    hard: None,
+                    ext: None,
+                    keyed: false,
+                    subs,
+                },
+                1 => Agg::Range {
+                    field,
+                    ranges: vec![
+                        Rg {
+                            from: None,
+                            to: Some(0.0),
+                            key: None,
+                        },
+                        Rg {
+                            from: Some(0.0),
+                            to: None,
+                            key: None,
+                        },
+                    ],
+                    keyed: false,
+                    subs,
+                },
+                _ => Agg::Composite {
+                    sources: vec![CSrc {
+                        name: "s0".into(),
+                        kind: CK::Terms,
+                        field,
+                        asc: true,
+                        missing_bucket: false,
+                        missing_order: 0,
+                    }],
+                    size: 1000,
+                    after: None,
+                    subs,
+                },
+            };
+            ReqCase {
+                aggs: vec![(format!("{}_9", a.kind()), a)],
+                probe: Probe::MvBucket,
+            }
+        }
+        3 => {
+            let a = Agg::Terms {
+                field: Fd::Cat,
+                size: Some(200),
+                segment_size: Some(400),
+                min_doc_count: None,
+                order: Some((OrdT::Key, true)),
+                missing: None,
+                show_err: None,
+                approx: false,
+                subs: vec![(
+                    "tophits_1".to_string(),
+                    Agg::TopHits {
+                        sort: vec![(Fd::Id, true)],
+                        size: 2,
+                        from: Some(g.rng.urange(1, 4)),
+                        dvf: vec![],
+                    },
+                )],
+            };
+            ReqCase {
+                aggs: vec![("terms_9".to_string(), a)],
+                probe: Probe::TopHitsFrom,
+            }
+        }
+        _ => {
+            let a = Agg::Range {
+                field: *g.rng.pick(&[Fd::Fi, Fd::Rank]),
+                ranges: vec![Rg {
+                    from: Some(-1.5),
+                    to: Some(2.5),
+                    key: None,
+                }],
+                keyed: false,
+                subs: vec![],
+            };
+            ReqCase {
+                aggs: vec![("range_9".to_string(), a)],
+                probe: Probe::RangeFrac,
+            }
+        }
+    }
+}
+
+
+fn has_tophits_without_docvalues(aggs: &Aggs) -> bool {
+    aggs.iter().any(|(_, a)| match a {
+        Agg::TopHits { dvf, .. } => dvf.is_empty(),
+        other => other.subs().map(has_tophits_without_docvalues).unwrap_or(false),
+    })
+}
+
+fn probe_tag(p: Probe) -> &'static str {
+    match p {
+        Probe::MvBucket => "multivalued-bucket-field/",
+        Probe::TopHitsFrom => "tophits-from-beyond-hits/",
+        Probe::RangeFrac => "range-fractional-bound-on-integer-field/",
+        Probe::None => "",
+    }
+}
+
+/// signature of an Err / panic outcome: the message (digits squashed), never the location
+fn error_signature(prefix: &str, kind: &str, e: &str, rc: &ReqCase) -> String {
+    let msg = e.split(" @ ").next().unwrap_or(e);
+    if msg.contains("postcard deserialize") && has_tophits_without_docvalues(&rc.aggs) {
+        // `DocSortValuesAndFields::doc_value_fields` is `skip_serializing_if = "HashMap::is_empty"`,
+        // which a non self-describing format cannot read back
+        return "serialisation/postcard-roundtrip-fails:top_hits-without-docvalue_fields".to_string();
+    }
+    if msg.contains("fetch_block requires docs sorted ascending without duplicates") && rc.probe == Probe::MvBucket {
+        return "multivalued-bucket-field/duplicate-doc-ids-forwarded-to-sub-aggregation:debug_assert-in-fetch_block".to_string();
+    }
+    if msg.contains("out of range for slice") && rc.probe == Probe::TopHitsFrom {
+        return "tophits-from-beyond-hits/panic-in-into_final_result:drain-out-of-range".to_string();
+    }
+    if msg.contains("index out of bounds") && e.contains("bucket/composite/collector.rs") {
+        return "composite-as-sub-aggregation/panic:index-out-of-bounds-in-add_intermediate_bucket_result".to_string();
+    }
+    let file = e
+        .split(" @ ")
+        .nth(1)
+        .and_then(|l| l.strip_prefix("/repo/"))
+        .and_then(|l| l.split(':').next())
+        .map(|f| format!("@{f}"))
+        .unwrap_or_default();
+    format!("{prefix}/{}{kind}:{}{file}", probe_tag(rc.probe), squash(msg))
+}
+
+/// conditions of the request (not of the outcome) that select a specific, known defect class
+fn cond_tags(a: &Agg, corpus: &Corpus, out: &mut BTreeSet<&'static str>) {
+    if let Agg::Composite { sources, .. } = a {
+        for s in sources {
+            let histo = matches!(s.kind, CK::Hist(_) | CK::DateHist(..));
+            if histo && ((s.missing_order == 2 && s.asc) || (s.missing_order == 1 && !s.asc)) {
+                // `None => precompute_missing_after_key(true, ..)` makes the first page skip everything
+                out.insert("composite-histogram-source-missing_order-skips-every-bucket/");
+            }
+            if matches!(s.kind, CK::DateHist(..))
+                && corpus.docs.iter().any(|d| d.get(Fd::Fdt).iter().any(|v| matches!(v, V::D(ns) if *ns < 0)))
+            {
+                out.insert("composite-date_histogram-negative-timestamp/");
+            }
+        }
+    }
+    if let Some(subs) = a.subs() {
+        for (_, x) in subs {
+            cond_tags(x, corpus, out);
+        }
+    }
+}
+
+struct Part {
+    label: &'static str,
+    built: Vec<Built>,
+    absent: Vec<Fd>,
+    shape: String,
+    nparts: usize,
+}
+
+fn report_mismatches(
+    corpus: &Corpus,
+    rep: &mut Report,
+    mis: &[Mis],
+    prefix: &str,
+    rc: &ReqCase,
+    part: &Part,
+    witness: &Value,
+) {
+    let take = if rc.probe == Probe::None { 3 } else { 1 };
+    for m in mis.iter().take(take) {
+        let mut tags = String::from(probe_tag(rc.probe));
+        if rc.probe == Probe::None {
+            if let Some((_, a)) = rc.aggs.iter().find(|(n, _)| *n == m.top) {
+                let mut f = vec![];
+                a.fields(&mut f);
+                if f.iter().any(|x| part.absent.contains(x)) {
+                    tags.push_str("absent-column/");
+                }
+                let mut ct = BTreeSet::new();
+                cond_tags(a, corpus, &mut ct);
+                for t in ct {
+                    tags.push_str(t);
+                }
+            }
+        }
+        let sig = format!("{prefix}/{tags}{}:{}", m.path, m.what);
+        let mut w = witness.clone();
+        w["mismatch"] = json!(m.detail);
+        w["partition"] = json!(part.shape);
+        rep.violation(sig, w);
+    }
+}
+
+fn case_fn(quick: bool) -> impl Fn(u64, &mut Rng, &mut Report) + Sync {
+    move |case: u64, rng: &mut Rng, rep: &mut Report| {
+        let sch = build_schema();
+        let corpus = gen_corpus(rng, !quick || case % 6 == 5);
+        let n = corpus.docs.len();
+        let all: Vec<usize> = (0..n).collect();
+        // partitions
+        let k1 = rng.urange(1, 6);
+        let l0: Layout = vec![all.clone()];
+        let l1 = split_contiguous(rng, &all, k1);
+        let mut shuffled = all.clone();
+        rng.shuffle(&mut shuffled);
+        let k2 = rng.urange(2, 6);
+        let l2 = split_contiguous(rng, &shuffled, k2);
+        let m = rng.urange(1, 3);
+        let mut shuffled2 = all.clone();
+        rng.shuffle(&mut shuffled2);
+        let groups = split_contiguous(rng, &shuffled2, m);
+        let dl: Vec<Layout> = groups
+            .iter()
+            .map(|g| {
+                let k = rng.urange(1, 3);
+                split_contiguous(rng, g, k)
+            })
+            .collect();
+        let mut parts: Vec<Part> = vec![];
+        for (label, layouts) in [
+            ("direct", vec![l0]),
+            ("segments", vec![l1]),
+            ("segments", vec![l2]),
+            ("distributed", dl),
+        ] {
+            let mut built = vec![];
+            for l in &layouts {
+                match build_index(&sch, &corpus, l) {
+                    Ok(b) => built.push(b),
+                    Err(e) => {
+                        rep.violation(format!("api-error:index-build:{}", squash(&e)), json!({"error": e}));
+                        return;
+                    }
+                }
+            }
+            let refs: Vec<&Layout> = built.iter().map(|b| &b.layout).collect();
+            let absent = absent_fields(&corpus, &refs);
+            let segs: Vec<String> = built.iter().map(|b| b.layout.len().to_string()).collect();
+            let nparts: usize = built.iter().map(|b| b.layout.len().max(1)).sum();
+            parts.push(Part {
+                label,
+                shape: format!("{}[{}]", if label == "distributed" { "idx" } else { "seg" }, segs.join("+")),
+                built,
+                absent,
+                nparts,
+            });
+        }
+        for p in &parts {
+            rep.observe("partition_shape", p.shape.clone());
+        }
+        rep.observe("corpus_size_class", format!("{}", if n == 0 { 0 } else { (n as f64).log2() as u32 + 1 }));
+
+        let nreq = rng.urange(3, 4);
+        for ri in 0..nreq {
+            let rc = gen_req_case(rng, &corpus);
+            let q = match rng.weighted(&[60, 20, 20]) {
+                0 => Q::All,
+                1 => Q::Cat(format!("c{}", rng.usize_below(corpus.cat_pool))),
+                _ => {
+                    let a = rng.irange(-60, 40);
+                    Q::IRange(a, a + rng.irange(0, 100))
+                }
+            };
+            let matching: Vec<usize> = all.iter().cloned().filter(|&d| q_matches(&corpus, d, &q)).collect();
+            let req_json = aggs_json(&rc.aggs);
+            let req: Aggregations = match serde_json::from_value(req_json.clone()) {
+                Ok(r) => r,
+                Err(e) => {
+                    rep.violation(
+                        format!("api-error:request-deserialize:{}", squash(&e.to_string())),
+                        json!({"request": req_json, "error": e.to_string()}),
+                    );
+                    continue;
+                }
+            };
+            let env = Env {
+                corpus: &corpus,
+                all_docs: &all,
+                per_value: false,
+                trunc_date: false,
+            };
+            let exp = Exp::Obj(eval_aggs_map(&rc.aggs, &matching, &env));
+            let shape = shape_with_fields(&rc.aggs);
+            for (_, a) in &rc.aggs {
+                rep.observe("nesting_shape", a.shape());
+                rep.observe("depth", a.depth().to_string());
+                let mut stack = vec![a];
+                while let Some(x) = stack.pop() {
+                    rep.observe("agg_kind", x.kind());
+                    if let Some(s) = x.subs() {
+                        stack.extend(s.iter().map(|(_, a)| a));
+                    }
+                }
+            }
+            rep.observe("query_kind", match q { Q::All => "all", Q::Cat(_) => "term", Q::IRange(..) => "range" });
+            rep.observe("probe", format!("{:?}", rc.probe));
+            let witness = json!({
+                "corpus": corpus.descr, "request": req_json, "query": format!("{q:?}"),
+                "matching_docs": matching.len(), "request_index": ri,
+            });
+            let tq = q_build(&sch, &q);
+            let mut direct_ok = true;
+            let mut reference: Option<Value> = None;
+            for (pi, part) in parts.iter().enumerate() {
+                rep.eval();
+                rep.count("triples", 1);
+                let prefix = if direct_ok { part.label } else { "direct" };
+                // ---- run
+                let mut finals: Vec<(String, Result<Value, (String, String)>)> = vec![];
+                if part.label != "distributed" {
+                    finals.push(("search".into(), run_single(&part.built[0], tq.as_ref(), &req, Default::default())));
+                } else {
+                    let mut pieces = vec![];
+                    let mut failed = None;
+                    for b in &part.built {
+                        match run_distributed_piece(b, tq.as_ref(), &req) {
+                            Ok(p) => pieces.push(p),
+                            Err(e) => {
+                                failed = Some(e);
+                                break;
+                            }
+                        }
+                    }
+                    if let Some(e) = failed {
+                        finals.push(("distributed-search".into(), Err(e)));
+                    } else {
+                        let mut variants: Vec<(String, Result<IntermediateAggregationResults, String>)> = vec![];
+                        let g = |f: &dyn Fn() -> Result<IntermediateAggregationResults, String>| match guarded(f) {
+                            Ok(r) => r,
+                            Err(p) => Err(format!("panic: {} @ {}", p.message, p.location)),
+                        };
+                        variants.push(("fold".into(), g(&|| fold(pieces.clone()))));
+                        let mut perm = pieces.clone();
+                        rng.shuffle(&mut perm);
+                        variants.push(("fold-right-permuted".into(), g(&|| fold_right(perm.clone()))));
+                        let mut perm2 = pieces.clone();
+                        rng.shuffle(&mut perm2);
+                        if rng.bool() {
+                            perm2.push(IntermediateAggregationResults::default());
+                            rng.shuffle(&mut perm2);
+                        }
+                        variants.push(("tree-permuted".into(), g(&|| tree(perm2.clone()))));
+                        let mut perm3 = pieces.clone();
+                        rng.shuffle(&mut perm3);
+                        variants.push((
+                            "postcard".into(),
+                            g(&|| {
+                                let rt: Result<Vec<_>, String> = perm3.iter().map(postcard_rt).collect();
+                                let merged = fold(rt?)?;
+                                postcard_rt(&merged)
+                            }),
+                        ));
+                        for (name, v) in variants {
+                            rep.count("merge_variants", 1);
+                            let fin = match v {
+                                Err(e) => Err(("error".to_string(), e)),
+                                Ok(inter) => match guarded(|| inter.into_final_result(req.clone(), Default::default())) {
+                                    Ok(Ok(r)) => serde_json::to_value(&r).map_err(|e| ("error".into(), e.to_string())),
+                                    Ok(Err(e)) => Err(("error".into(), e.to_string())),
+                                    Err(p) => Err(("panic".into(), format!("{} @ {}", p.message, p.location))),
+                                },
+                            };
+                            finals.push((name, fin));
+                        }
+                    }
+                }
+                // ---- check
+                let mut nbuckets = 0;
+                for (variant, fin) in &finals {
+                    match fin {
+                        Err((kind, e)) => {
+                            let mut w = witness.clone();
+                            w["error"] = json!(e);
+                            w["partition"] = json!(part.shape);
+                            w["variant"] = json!(variant);
+                            w["kinds"] = json!(shape);
+                            rep.violation(error_signature(prefix, kind, e, &rc), w);
+                            if pi == 0 {
+                                direct_ok = false;
+                            }
+                        }
+                        Ok(got) => {
+                            let mut c = Cmp::new();
+                            c.cmp(&exp, got);
+                            if !c.out.is_empty() {
+                                let mut w = witness.clone();
+                                w["variant"] = json!(variant);
+                                w["got"] = json!(got.to_string().chars().take(1500).collect::<String>());
+                                report_mismatches(&corpus, rep, &c.out, prefix, &rc, part, &w);
+                                if pi == 0 {
+                                    direct_ok = false;
+                                }
+                            } else {
+                                rep.count("results_matching_oracle", 1);
+                            }
+                            nbuckets = nbuckets.max(count_buckets(&rc.aggs, got));
+                            if pi == 0 {
+                                reference = Some(got.clone());
+                            }
+                        }
+                    }
+                }
+                if nbuckets >= 2 || part.nparts >= 2 {
+                    rep.nontrivial(format!("{shape}|{}|{}", part.shape, matches!(q, Q::All)));
+                }
+                if case < 2 && ri == 0 && pi == 1 {
+                    rep.sample(json!({"request": req_json, "corpus": corpus.descr, "partition": part.shape,
+                        "query": format!("{q:?}"), "result": finals.first().and_then(|f| f.1.as_ref().ok())}));
+                }
+            }
+            // ---- limits: an error or the unlimited result, never something else
+            if let Some(reference) = &reference {
+                if rng.chance(1, 2) {
+                    let total = count_buckets(&rc.aggs, reference);
+                    let limit = rng.range(0, total + 2) as u32;
+                    let part = &parts[rng.urange(0, 2)];
+                    rep.count("limit_checks", 1);
+                    let r = run_single(&part.built[0], tq.as_ref(), &req, AggregationLimitsGuard::new(None, Some(limit)));
+                    let w = |extra: Value| {
+                        let mut w = witness.clone();
+                        w["bucket_limit"] = json!(limit);
+                        w["buckets_in_unlimited_result"] = json!(total);
+                        w["outcome"] = extra;
+                        w
+                    };
+                    match r {
+                        Err((kind, e)) => {
+                            if kind == "panic" {
+                                rep.violation(format!("limits/panic:{}", squash(&e)), w(json!(e)));
+                            } else if total <= limit as u64 && direct_ok {
+                                rep.violation("limits/bucket-limit:error-although-within-limit", w(json!(e)));
+                            } else {
+                                rep.count("limit_errors_observed", 1);
+                                rep.observe("limit_error", squash(&e));
+                            }
+                        }
+                        Ok(got) => {
+                            if total > limit as u64 {
+                                rep.violation("limits/bucket-limit:no-error-above-limit", w(got));
+                            } else if direct_ok {
+                                let mut c = Cmp::new();
+                                c.cmp(&exp, &got);
+                                if !c.out.is_empty() {
+                                    rep.violation("limits/bucket-limit:different-result-within-limit", w(json!(c.out[0].detail)));
+                                }
+                            }
+                        }
+                    }
+                    // tiny memory limit
+                    let mem = *rng.pick(&[1u64, 64, 1000, 5000]);
+                    let r = run_single(&part.built[0], tq.as_ref(), &req, AggregationLimitsGuard::new(Some(mem), None));
+                    match r {
+                        Err((kind, e)) if kind == "panic" => {
+                            rep.violation(format!("limits/panic:{}", squash(&e)), json!({"witness": witness, "memory_limit": mem, "error": e}));
+                        }
+                        Err((_, e)) => {
+                            rep.count("limit_errors_observed", 1);
+                            rep.observe("limit_error", squash(&e));
+                        }
+                        Ok(got) => {
+                            if direct_ok {
+                                let mut c = Cmp::new();
+                                c.cmp(&exp, &got);
+                                if !c.out.is_empty() {
+                                    rep.violation(
+                                        "limits/memory-limit:silently-different-result",
+                                        json!({"witness": witness, "memory_limit": mem, "mismatch": c.out[0].detail}),
+                                    );
+                                }
+                            }
+                        }
+                    }
+                }
+            }
+        }
+    }
+}
+
+fn main() {
+    let ctx = Ctx::from_env("C14", "exploration");
+    let rep = run_cases(&ctx, "main", ctx.scale(36, 1700) as u64, case_fn(ctx.quick()));
+    simple_finish(
+        &ctx,
+        rep,
+        "a case = one generated corpus (0..6000 docs; f64/i64/u64/date/bool/ip, STRING|FAST and tokenized text fast \
+         fields; missing, multi-valued, negative, fractional, on-boundary values, high-cardinality terms) indexed in 4 \
+         partitions (1 segment / k contiguous segments / k' shuffled segments / 1-3 separately searched indexes merged \
+         through DistributedAggregationCollector + merge_fruits in fold, permuted right-nested, pairwise-tree and \
+         postcard round-tripped order) x 3-4 generated request trees (depth <= 3) over value_count, sum, min, max, avg, \
+         stats, extended_stats, percentiles, cardinality, top_hits, range, histogram, date_histogram, terms, filter \
+         (single `filter`; a plural `filters` aggregation does not exist in this version), composite (terms / histogram \
+         / fixed-interval date_histogram sources, first page only; calendar intervals and `after` pagination not \
+         generated) x a filtering query (all / term / range). evaluations = (corpus, request, partition) triples, each \
+         compared with a naive evaluator over the model documents. non-trivial = the result has >= 2 buckets or >= 2 \
+         segments/indexes were merged; distinct = distinct (request kind+field tree, partition shape, query is-all) keys.",
+        ctx.scale(100, 3000),
+        &[
+            "terms aggregations are compared exactly only with segment_size >= cardinality; with a small segment_size only the documented bounds are asserted",
+            "ties in _count / metric order are canonicalised: the sequence of sort values and the per-key contents are compared, not the order inside a tie",
+            "histogram bucket keys follow the documented f64 formula floor((v-offset)/interval)*interval+offset evaluated in f64",
+            "a range aggregation below an empty parent bucket may list every range with doc_count 0 or no bucket at all (both accepted)",
+            "percentiles within DDSketch relative accuracy 1 %; cardinality within 5 %+1 (<= 150 distinct) or 12 %+2",
+        ],
+    );
+}
+
+#[allow(dead_code)]
+fn _unused(_: BTreeSet<u8>) {}
